@@ -203,3 +203,88 @@ def energy_tables():
     """{(symbol, A or None): [(E_eV, re, im, abs), ...]} - nsf_tables.ENERGY_DEPENDENT_TABLES read as-is."""
     from periodictable.nsf_tables import ENERGY_DEPENDENT_TABLES
     return dict((k, [tuple(float(x) for x in row) for row in v]) for k, v in ENERGY_DEPENDENT_TABLES.items())
+
+
+# ---------------------------------------------------------------- covalent radii (Cordero)
+def covalent_radii():
+    """{Z: (symbol-label, radius, uncertainty)} from covalent_radius.Cordero.
+    Columns (comment above the table): Z, Symbol, radius(A), uncertainty (0.01A), n measurements.
+    Rows whose first field is '-' are alternate spin/hybridisation states of the previous element
+    and are skipped (first state wins).  Missing uncertainty -> 0."""
+    import periodictable.covalent_radius as cr
+    out = {}
+    for ln in cr.Cordero.split("\n"):
+        f = ln.split()
+        if not f or f[0] == "-":
+            continue
+        Z = int(f[0])
+        if Z in out:
+            raise MachineryError("duplicate Cordero row %d" % Z)
+        unc = float(f[3]) * 0.01 if len(f) > 3 else 0.0
+        out[Z] = (f[1], float(f[2]), unc)
+    return out
+
+
+# ---------------------------------------------------------------- crystal structures (python literal + #Sym comments)
+def crystal_structures():
+    """List of (index, value, label) from the source of crystal_structure.py: the entries of the
+    `crystal_structures` list literal with the trailing `#Sym` comment of each entry (the
+    independent statement of which element the entry belongs to)."""
+    import tokenize, io
+    path = os.path.join(PKG, "crystal_structure.py")
+    src = open(path, encoding="latin-1").read()
+    node = _assigned_call_or_literal(path, "crystal_structures")
+    if not isinstance(node, ast.List):
+        raise MachineryError("crystal_structures is not a list literal")
+    values = [(ast.literal_eval(e), e.end_lineno) for e in node.elts]
+    comments = {}
+    for tok in tokenize.generate_tokens(io.StringIO(src).readline):
+        if tok.type == tokenize.COMMENT:
+            comments[tok.start[0]] = tok.string.lstrip("#").strip()
+    return [(i, v, comments.get(line)) for i, (v, line) in enumerate(values)]
+
+
+# ---------------------------------------------------------------- emission lines
+def spectral_lines():
+    """{symbol: (K_alpha, K_beta1)} from xsf.spectral_lines_data (columns: element, K_alpha, K_beta1)."""
+    import periodictable.xsf as xsf
+    out = {}
+    for ln in xsf.spectral_lines_data.split("\n"):
+        f = ln.split()
+        if len(f) != 3:
+            raise MachineryError("spectral line row %r" % ln)
+        if f[0] in out:
+            raise MachineryError("duplicate spectral line row %s" % f[0])
+        out[f[0]] = (float(f[1]), float(f[2]))
+    return out
+
+
+# ---------------------------------------------------------------- magnetic form factors (CrysFML text)
+_CFML = re.compile(
+    r"Magnetic_(Form|j2|j4|j6)\(\s*\d+\)\s*=\s*Magnetic_Form_Type\(\"\s*([A-Za-z]+)(\d)\s*\"\s*,\s*&?\s*"
+    r"\(/([^/]*)/\)\s*\)", re.S)
+
+
+def magnetic_records():
+    """List of (kind, symbol, charge, coefficients[7]) for every record of magnetic_ff.CFML_DATA.
+    kind is 'j0' (Magnetic_Form with leading M), 'J' (leading J), 'j2', 'j4', 'j6'.  Own regex; no eval."""
+    import periodictable.magnetic_ff as mff
+    out = []
+    for m in _CFML.finditer(mff.CFML_DATA):
+        arr, label, charge, body = m.group(1), m.group(2), int(m.group(3)), m.group(4)
+        coeffs = tuple(float(x) for x in body.replace("&", " ").split(","))
+        if len(coeffs) != 7:
+            raise MachineryError("magnetic record with %d coefficients: %s%d" % (len(coeffs), label, charge))
+        if arr == "Form":
+            kind = {"M": "j0", "J": "J"}.get(label[0])
+            if kind is None:
+                raise MachineryError("Magnetic_Form label %r" % label)
+            label = label[1:]
+        else:
+            kind = arr
+        sym = label[0] + label[1:].lower()
+        out.append((kind, sym, charge, coeffs))
+    n_decl = len(re.findall(r"Magnetic_Form_Type\(\"", mff.CFML_DATA))
+    if n_decl != len(out):
+        raise MachineryError("magnetic reader matched %d of %d records" % (len(out), n_decl))
+    return out
